@@ -603,7 +603,7 @@ fn c03_sweep(thorough: bool) -> i32 {
     let max = if thorough { 2 } else { 1 };
     let privs = section_choices(PRIVS.len(), max);
     let roles = section_choices(ROLES.len(), max);
-    let ids = section_choices(IDS.len() - 1, max) // (C03 does not need the blank-attribute identity of the C02 pool);
+    let ids = section_choices(IDS.len() - 1, max); // (C03 does not need the blank-attribute identity of the C02 pool)
     let asgs = section_choices(ASGS.len() - 1, max);
     let modes: &[(&str, &str)] = &[("enforce", "deny"), ("enforce", "allow"), ("audit", "allow"), ("Audit", "deny"), ("disabled", "allow"), ("bogus", "allow")];
     let uris: Vec<hyper::Uri> = URLS.iter().map(|u| hyper::Uri::from_str(u).unwrap()).collect();
